@@ -49,6 +49,19 @@ def ode_taylor(ctx, derivs, x0, y0, tol_prec, n):
             if k > 0 and ts[k]:
                 radius = min(radius, ctx.nthroot(tol/abs(ts[k]), k))
     radius /= 2  # XXX
+    # The trailing coefficients say nothing when they vanish although later
+    # ones do not (a series in powers of x^m, a polynomial solution of higher
+    # degree). Check the differential equation itself at the end of the
+    # step, and shorten the step until the Taylor polynomial satisfies it:
+    # a residual r there means a truncation error of about r*h/(n+1)
+    for halvings in range(60):
+        y1 = [sum(ts[k]*radius**k for k in range(n+1)) for ts in ser]
+        dy1 = [sum(k*ts[k]*radius**(k-1) for k in range(1, n+1)) for ts in ser]
+        f1 = derivs(x0+radius, y1)
+        res = max(abs(dy1[d]-f1[d]) for d in range(dim))
+        if res*radius <= (n+1)*tol:
+            break
+        radius /= 2
     return ser, x0+radius
 
 def odefun(ctx, F, x0, y0, tol=None, degree=None, method='taylor', verbose=False):
